@@ -1272,6 +1272,34 @@ def t4(prog, rep):
                     low.append(R[1] + (1 if op == ">" else 0))
                 if L == BL and op == "==" and not exact_total(L, R):
                     low.append(1 << 62)
+    # ... and no test on the way there turns away a value of a decoded field: the encoder writes whatever the address holds
+    # (a Unix-domain name is longer than any inet one), so a bound on a field alone rejects addresses that were serialised
+    picky = []
+    for r in okret:
+        for cond, truth in des.edge_conds(r):
+            for op, L, R, _, _ in cond_atoms(cond, truth):
+                if exact_total(L, R):
+                    continue
+                if any(t[0] == "call" for x in (L, R) for t in subterms(x)):
+                    continue        # an allocation's answer
+                # implied by the exact length (buflen = header + namelen)?
+                d = linform(L)
+                for k, v in linform(R).items():
+                    d[k] = d.get(k, 0) - v
+                cb = d.pop(BL, 0)
+                d["namelen"] = d.get("namelen", 0) + cb
+                d[None] = d.get(None, 0) + cb * hdr
+                d = {k: v for k, v in d.items() if v}
+                if set(d) <= {None}:
+                    v = d.get(None, 0)
+                    if {"==": v == 0, "!=": v != 0, "<": v < 0, "<=": v <= 0, ">": v > 0, ">=": v >= 0}.get(op, False):
+                        continue
+                fl = [fname(x) for x in (L, R)]
+                if any(x is not None for x in fl) and not (("name" in fl) and ("c", 0) in (L, R) and op in ("!=", "==")):
+                    picky.append((cond, "%s %s %s" % (show(L), op, show(R))))
+    rep.check(not picky, "T4-sockaddr", "deserialize accepts every field value serialize writes", (picky[0][0].where if picky else des.loc),
+              "success requires `%s`: an address whose field is outside that serialises but does not deserialise" % (picky[0][1] if picky else ""),
+              function=des.name, construct="field-agree")
     rep.check(exact and bool(okret) and all(c <= hdr for c in low), "T4-sockaddr", "deserialize accepts exactly the length serialize produces", des.loc,
               "serialize writes %d + namelen bytes; deserialize's success path requires: exact-length test with that sum: %s, minimum lengths: %s"
               % (hdr, exact, sorted(set(low))), function=des.name, construct="length-agree")
